@@ -403,8 +403,7 @@ class Mesh:
 
     def interior_nodes(self) -> ndarray:
         """Return an array of interior node indices."""
-        return np.setdiff1d(np.arange(0, self.p.shape[1]),
-                            self.boundary_nodes())
+        return np.setdiff1d(np.unique(self.t), self.boundary_nodes())
 
     def nodes_satisfying(self,
                          test: Callable[[ndarray], ndarray],
